@@ -111,8 +111,14 @@ func main() {
 			}
 			continue
 		}
-		if verdict == "ok" && *outdir != "" {
-			for _, v := range []struct{ suffix, src string }{{"_go", c.Src}, {"_xgo", r.Go}} {
+		if *outdir != "" {
+			// the original source is always written (so that the check can tell "valid Go rejected by
+			// XGo" from "the generator produced invalid Go"); the XGo output only when there is one
+			pair := []struct{ suffix, src string }{{"_go", c.Src}}
+			if verdict == "ok" {
+				pair = append(pair, struct{ suffix, src string }{"_xgo", r.Go})
+			}
+			for _, v := range pair {
 				d := *outdir + "/" + c.ID + v.suffix
 				if err := os.MkdirAll(d, 0o755); err != nil {
 					verdict, detail = "ioerr", err.Error()
